@@ -364,7 +364,7 @@ def finish(ctx, level, rule, trace_module=None, sigfn=None, assumptions=None, ex
         if k is not None:
             known_hits[sig] = (k, len(fs))
             continue
-        if sig.startswith("harness-") or "/harness-" in sig:
+        if sig.startswith("harness-") or "/harness-" in sig or "harness-panic" in json.dumps(fs[0]["event"].get("panic", "")):
             raise Broken("harness produced an ill-formed event: %s: %s" % (sig, json.dumps(slim(fs[0]["event"]))[:600]))
         if trace_module and not confirm(ctx, fs[0], trace_module, sigfn):
             raise Broken("failure %s was not reproduced by replay" % sig)
@@ -410,7 +410,14 @@ def finish(ctx, level, rule, trace_module=None, sigfn=None, assumptions=None, ex
     return 1 if violations else 0
 
 
+def panic_site(e):
+    """Normalised panic text of an event (numbers removed) so that a signature names the failure, not the input."""
+    return re.sub(r"\d+", "N", str(e.get("panic", "")))[:120]
+
+
 def default_sig(e, reason):
+    if reason == "panic":
+        return "%s/%s" % (e.get("op", "?"), panic_site(e))
     return "%s/%s" % (e.get("op", "?"), reason)
 
 
